@@ -76,3 +76,20 @@ claim("C11",
       "end-to-end group.",
       "Trusted: CPython, CrossHair path bookkeeping (+tally cross-check), z3, reference least fixed point (validated in C03).",
       "CrossHair symbolic execution (pattern D: solver-enumerated shifts/buckets per shape) + z3", "DESIGN.md 2/C11")
+claim("C01",
+      "Bounded symbolic execution of whole searches: one CrossHair path = one run of the real searcher on a concrete regular-"
+      "language universe; the solver variables are the DFA table, the position of a late clock reading (time-slicing of the "
+      "expand/search loop) and the draw tape (choice of proof tree); groups = rule database x option set. z3 proves that no "
+      "value of the variables inside the bound is left unexplored; on every path the returned specification's counts (all sizes "
+      "<=6, all statistic values) equal brute force. Every decision is realised (the solver enumerates); the per-rule "
+      "recurrences are covered symbolically by C09.",
+      "Trusted: CPython, CrossHair path bookkeeping (+tally cross-check), z3, brute force through the DFA; clock/random shims; REG "
+      "strategies honour the strategy contracts (self-test).",
+      "CrossHair symbolic execution (pattern D: solver-enumerated universes, schedules, draws) + z3", "DESIGN.md 2/C01")
+claim("C02",
+      "Same bounded exploration as C01 with a structural oracle: every returned specification is taken apart by independent code - "
+      "closure, one rule per class (also inside equivalence paths), every rule re-derived from the pack's strategies, empty rules "
+      "only for truly empty classes, productivity by the reference least fixed point with shifts recomputed from brute-force "
+      "minimum sizes.",
+      "Trusted: as C01 plus the reference least-fixed-point evaluator.",
+      "CrossHair symbolic execution (pattern D: solver-enumerated universes, schedules, draws) + z3", "DESIGN.md 2/C02")
